@@ -54,7 +54,9 @@ def run(res):
     out, defs, (rc, so, se) = core.gen_and_eval("C07_race", "c07race",
         "From Coq Require Import List NArith Bool.\nImport ListNotations.\nFrom MV Require Import Lib.Check.\nOpen Scope N_scope.\nOpen Scope list_scope.\n",
         "Definition race_ok (c : bool * N * N * N * N) : bool := let '(_, it, ps, st, ot) := c in (0 <? it) && (ps =? 0) && (st =? 0) && (ot =? 0).\n"
-        "Definition bad_race := Eval vm_compute in bad_idx race_ok race_cases.\nPrint bad_race.\n")
+        "Definition bad_race := Eval vm_compute in bad_idx race_ok race_cases.\nPrint bad_race.\n"
+        "Definition cr_ok (c : N * N * N) : bool := let '(it, dl, ot) := c in (0 <? it) && (dl =? 0).\n"
+        "Definition bad_cr := Eval vm_compute in bad_idx cr_ok closerecv_cases.\nPrint bad_cr.\n")
     if out is None:
         res.violation("race:harness-abort", "the survey expiry-race search did not complete on the current tree (rc=%d): %s" % (rc, se[-600:]),
                       {"stderr": se[-3000:]}, found_input=("panic:" in se or "WATCHDOG" in se))
@@ -62,6 +64,13 @@ def run(res):
         from .c20 import items
         its = items(open(defs).read(), "race_cases")
         res.coverage["expiry_race_sweeps"] = its
+        crs = items(open(defs).read(), "closerecv_cases")
+        res.coverage["close_then_recv_rounds"] = crs
+        for i in core.parse_nlist(core.parse_printed(out, "bad_cr")) or []:
+            res.violation("race:close-vs-recv",
+                          "a SURVEYOR context with a response already queued was closed and Recv called at once: the closed context handed out the response "
+                          "(rounds, responses delivered after Close, set-up failures) = %s" % (crs[i] if i < len(crs) else "?"),
+                          {"case": crs[i] if i < len(crs) else "?", "how": "harness/cmd/c07race closeRecv: OpenContext; Send; respondent answers; ctx.Close(); ctx.Recv() immediately"})
         for i in core.parse_nlist(core.parse_printed(out, "bad_race")) or []:
             res.violation("race:expiry-vs-new-survey",
                           "with a survey's timer expiring at the moment the next survey is started (offset swept +-100 us, 4 goroutines contending for the socket mutex), "
